@@ -89,6 +89,7 @@ func NewMachine(prog *ssa.Program, cfg Config) (*Machine, error) {
 		maxSteps: cfg.MaxSteps,
 		maxDepth: cfg.MaxDepth,
 		pools:    make(map[*value][]value),
+		syncMaps: make(map[*value]*omap),
 	}
 	if cfg.Trace {
 		i.mode |= EnableTracing
@@ -163,6 +164,7 @@ func (m *Machine) resetPath() {
 	i.steps = 0
 	i.depth = 0
 	i.pools = make(map[*value][]value)
+	i.syncMaps = make(map[*value]*omap)
 	i.stubs = nil
 	i.monitor = nil
 	for _, g := range m.utGlobal {
@@ -248,6 +250,14 @@ func (m *Machine) RunJob(fn *ssa.Function, arg int, res *JobResult) {
 		}()
 		if init := pkg.Func("init"); init != nil {
 			call(m.i, nil, token.NoPos, init, nil)
+		}
+		m.i.fresh = func() {
+			steps, depth := m.i.steps, m.i.depth
+			m.resetPath()
+			m.i.steps, m.i.depth = steps, depth
+			if init := pkg.Func("init"); init != nil {
+				call(m.i, nil, token.NoPos, init, nil)
+			}
 		}
 		var args []value
 		if fn.Signature.Params().Len() == 1 {
@@ -353,6 +363,13 @@ func init() {
 		"symReach": func(fr *frame, args []value) value {
 			fr.i.ex.Reach(concreteString(args[0]))
 			return nil
+		},
+		"symFreshProcess": func(fr *frame, args []value) value {
+			fr.i.fresh()
+			return nil
+		},
+		"symMode": func(fr *frame, args []value) value {
+			return "both"
 		},
 		"symNote": func(fr *frame, args []value) value {
 			fr.i.ex.Note(concreteString(args[0]))
